@@ -331,6 +331,77 @@ class G2:
             return bool(re.match(r"^(std::collections::hash::map::HashMap|std::collections::HashMap|alloc::collections::btree::map::BTreeMap)", ty))
         return False
 
+    SET_TY = re.compile(r"^(std::collections::hash::set::HashSet|std::collections::HashSet|alloc::collections::btree::set::BTreeSet)<(.*?)(, [A-Za-z:]*RandomState)?>$")
+
+    def _projection_eq(self, path):
+        """field F if the body of the `eq` impl at `path` is `self.F.eq(&other.F)` / `self.F.eq(other)` / `self.F == other.F` (an equality decided by one field)"""
+        g = self.F.fns.get(path)
+        if not g or "hir" not in g:
+            return None
+        b = peel(g["hir"]["value"])
+        while b.get("k") == "Block" and not b.get("stmts") and b.get("expr") is not None:
+            b = peel(b["expr"])
+        if b.get("k") == "MethodCall" and b["name"] == "eq" and len(b["args"]) == 1:
+            l, r = peel(b["recv"]), peel(b["args"][0])
+        elif b.get("k") == "Binary" and b["op"] == "Eq":
+            l, r = peel(b["a"]), peel(b["b"])
+        else:
+            return None
+        while r.get("k") in ("AddrOf",) or (r.get("k") == "Unary" and r.get("op") == "Deref"):
+            r = peel(r.get("e") or r.get("a"))
+        if l.get("k") == "Field" and ekey(l["e"]).lstrip("&*") == "self":
+            if r.get("k") == "Field" and r["name"] == l["name"]:
+                return (l["name"], "same")
+            if r.get("k") == "Path" and r.get("res_kind") == "Local":
+                return (l["name"], "bare")
+        return None
+
+    def _unique_match(self, cond, names, elem_ty):
+        """`cond` is `<element> == K` with K fixed during the iteration, and at most one element of a *set* of `elem_ty` can satisfy it: the equality is the one
+        that keeps the set's elements apart (same type), or it compares the one field that the element type's own equality compares (`With<T> == T`)"""
+        c = peel(cond)
+        while c.get("k") in ("DropTemps", "Use", "Paren"):
+            c = peel(c["e"])
+        if c.get("k") != "Binary" or c.get("op") != "Eq":
+            return None
+        for el, k in ((c["a"], c["b"]), (c["b"], c["a"])):
+            e = peel(el)
+            while e.get("k") in ("AddrOf",) or (e.get("k") == "Unary" and e.get("op") == "Deref") or (e.get("k") == "MethodCall" and e["name"] in ("clone", "borrow", "as_ref") and not e["args"]):
+                e = peel(e.get("e") or e.get("a") or e.get("recv"))
+            if not (e.get("k") == "Path" and e.get("res_kind") == "Local" and e.get("res") in names):
+                continue
+            if any(y.get("k") == "Path" and y.get("res") in names for y in walk(k, pats=False)):
+                continue
+            ga = [strip_ty(g_) for g_ in (c.get("gargs") or [])]
+            et = strip_ty(elem_ty or "")
+            lt, rt = strip_ty(peel(c["a"]).get("ty") or ""), strip_ty(peel(c["b"]).get("ty") or "")
+            if lt == rt == et:
+                return f"`{ekey(c)}` is the equality that keeps the set's elements apart: at most one element satisfies it"
+            res = c.get("resolved") or ""
+            if el is c["a"] and lt == et and res in self.F.fns:
+                mine = self._projection_eq(res)
+                selfty = res.split(" as ")[0].lstrip("<")
+                own = [q for q in self.F.fns if q in (f"<{selfty} as core::cmp::PartialEq>::eq", f"<{selfty} as core::cmp::PartialEq<{selfty}>>::eq")]
+                theirs = self._projection_eq(own[0]) if own else None
+                if mine and theirs and mine[0] == theirs[0] and mine[1] == "bare" and theirs[1] == "same":
+                    return f"`{ekey(c)}` compares the field `{mine[0]}`, the one field that the element type's own equality compares: at most one element of the set satisfies it"
+        return None
+
+    def _set_elem_ty(self, e):
+        """element type if e (an iterator chain root / loop source) is a hash or tree *set*"""
+        r = peel(e)
+        while True:
+            if r.get("k") == "MethodCall" and r["name"] in ("iter", "into_iter", "clone", "filter", "inspect", "by_ref", "peekable", "borrow") :
+                r = peel(r["recv"])
+            elif r.get("k") == "Call" and short(callee_of(r) or "") in ("into_iter", "clone") and r.get("args"):
+                r = peel(r["args"][0])
+            elif r.get("k") in ("AddrOf", "DropTemps", "Use") or (r.get("k") == "Unary" and r.get("op") == "Deref"):
+                r = peel(r.get("e") or r.get("a"))
+            else:
+                break
+        m = G2.SET_TY.match(strip_ty(r.get("aty") or r.get("ty") or ""))
+        return m.group(2) if m else None
+
     def _worklist_item_state(self, pm, pop, lp):
         """(visited test, extra binding) if the popped item is a tuple/struct of several bindings and the loop's visited test names only one of them"""
         x = pop
@@ -414,6 +485,12 @@ class G2:
                     return ("UNSAFE", "`.next()` selects whichever element the hash order yields first", par)
                 if m in ("min_by_key", "max_by_key") and par["args"] and self._keyed_by_map_key(par):
                     return ("SAFE", f".{m}() by the map's own key: keys are pairwise distinct, so there is no tie for the hash order to break", None)
+                if m == "find" and state == "iter" and par["args"] and peel(par["args"][0]).get("k") == "Closure" and len(peel(par["args"][0]).get("params", [])) == 1:
+                    cl_ = peel(par["args"][0])
+                    et_ = self._set_elem_ty(par["recv"])
+                    why_ = self._unique_match(cl_["body"], pat_names(cl_["params"][0]), et_) if et_ else None
+                    if why_:
+                        return ("SAFE", ".find(): " + why_, None)
                 if m in POSITIONAL or (state == "seq" and m in ("get", "first", "last", "swap_remove", "remove", "split_first")):
                     return ("UNSAFE", f".{m}() depends on the position of elements in the hash order", par)
                 if m in ("join", "concat", "to_string") or (m == "serialize" and state == "seq"):
@@ -493,7 +570,19 @@ class G2:
         p, kind, n, pm = src
         f = self.F.fns[p]
         if kind == "for":
-            return self.loop_body(f, n["body"], pat_names(n["pat"]) if n["pat"] else set())
+            names = pat_names(n["pat"]) if n["pat"] else set()
+            # `for x in set { if x == K { .. } }`: everything the loop does, it does for the one element that equals K
+            et_ = self._set_elem_ty(n["iter"])
+            b = peel(n["body"])
+            while b.get("k") == "Block" and not b.get("stmts") and b.get("expr") is not None:
+                b = peel(b["expr"])
+            if b.get("k") == "Block" and len(b.get("stmts", [])) == 1 and b.get("expr") is None:
+                b = peel(b["stmts"][0].get("e") or {})
+            if et_ and b.get("k") == "If" and b.get("else") is None:
+                why_ = self._unique_match(b["cond"], names, et_)
+                if why_:
+                    return ("SAFE", "the loop acts only on the element selected by " + why_, None)
+            return self.loop_body(f, n["body"], names)
         if kind == "serialize":
             return ("UNSAFE", "a std hash container is handed to the serializer, which writes its elements in hash order", n)
         state = "iter"
